@@ -217,6 +217,8 @@ class Run:
     def settle(self) -> None:
         p = self.proc
         for _ in range(120):
+            if getattr(self, 'pre_tick', None) is not None:
+                self.pre_tick()
             if self.loop.pending():
                 self.loop.step()
                 self.ticks_run += 1
@@ -232,6 +234,8 @@ class Run:
         while self.tick < self.max_ticks:
             n = self.tick
             self.tick_trace_len[n] = len(programs.TRACE)
+            if getattr(self, 'pre_tick', None) is not None:
+                self.pre_tick()
             for r in self.reqs:
                 if not r.applied and r.where == GAP and r.pos == n:
                     self.apply(r)
